@@ -75,6 +75,33 @@ type ZIgnBad struct {
 	dig.In `ignore-unexported:"maybe"`
 	A      V0
 }
+// an embedded (anonymous) non-struct dependency declared BEFORE the struct that brings in dig.In / dig.Out
+type ZSrc interface{ ZNext() int }
+type ZSrc2 interface{ ZNext2() int }
+type ZBaseIn struct {
+	dig.In
+	A V0
+}
+type ZEmbIfaceBeforeIn struct {
+	ZSrc
+	ZBaseIn
+}
+type ZEmbPtrBeforeIn struct {
+	*V4
+	ZBaseIn
+}
+type ZBaseOut struct {
+	dig.Out
+	A V0
+}
+type ZEmbIfaceBeforeOut struct {
+	ZSrc2
+	ZBaseOut
+}
+type ZEmbPtrBeforeOut struct {
+	*V5
+	ZBaseOut
+}
 type ZNamedSlice []V0
 
 func (ZNamedSlice) M0() {}
@@ -90,6 +117,9 @@ var zooTypes = []reflect.Type{
 	reflect.TypeOf(ZIgn{}), reflect.TypeOf(ZIgnBad{}), reflect.TypeOf(ZNamedSlice{}), reflect.TypeOf(ZNamedFunc(nil)),
 	reflect.TypeOf(&ZErr{}), reflect.TypeOf(&ZIn1{}), reflect.TypeOf(&ZOut1{}), reflect.TypeOf(dig.In{}), reflect.TypeOf(dig.Out{}),
 	reflect.TypeOf(&dig.In{}), reflect.TypeOf(&dig.Out{}), reflect.TypeOf([]ZIn1{}), reflect.TypeOf([]ZOut1{}),
+	reflect.TypeOf(ZEmbIfaceBeforeIn{}), reflect.TypeOf(ZEmbPtrBeforeIn{}), reflect.TypeOf(ZEmbIfaceBeforeOut{}), reflect.TypeOf(ZEmbPtrBeforeOut{}),
+	reflect.TypeOf((*ZSrc)(nil)).Elem(), reflect.TypeOf((*ZSrc2)(nil)).Elem(), reflect.TypeOf(&V4{}), reflect.TypeOf(&V5{}),
+	reflect.TypeOf(ZEmbIfaceBeforeIn{}), reflect.TypeOf(ZEmbIfaceBeforeOut{}),
 }
 
 var tagValues = map[string][]string{
